@@ -133,11 +133,11 @@ impl Metadata {
     #[verifier::external_body] pub fn dev(&self) -> (r: u64) ensures r == self.spec_dev() { unimplemented!() }
     #[verifier::external_body] pub fn rdev(&self) -> (r: u64) ensures r == self.spec_rdev() { unimplemented!() }
     #[verifier::external_body] pub fn file_type(&self) -> (r: fs::FileType) ensures r.kind() == self.spec_kind() { unimplemented!() }
-    /// never fails on Linux, may on platforms without the field: no fault is counted, the caller must still propagate
+    /// reading a field of the snapshot: cannot fail on Linux (the Result is for platforms without the field)
     #[verifier::external_body] pub fn accessed(&self) -> (r: std::result::Result<SystemTime, io::Error>)
-        ensures r is Ok ==> r->Ok_0.t() == self.spec_atime() { unimplemented!() }
+        ensures r is Ok && r->Ok_0.t() == self.spec_atime() { unimplemented!() }
     #[verifier::external_body] pub fn modified(&self) -> (r: std::result::Result<SystemTime, io::Error>)
-        ensures r is Ok ==> r->Ok_0.t() == self.spec_mtime() { unimplemented!() }
+        ensures r is Ok && r->Ok_0.t() == self.spec_mtime() { unimplemented!() }
 }
 /// a Metadata value describes inode state `f`
 pub open spec fn meta_of_file(m: Metadata, f: FileState) -> bool {
@@ -360,11 +360,11 @@ pub fn seek(fd: &File, from: SeekFrom, Tracked(w): Tracked<&mut World>) -> (r: s
             match from {
                 SeekFrom::Start(p) => r is Ok ==> r->Ok_0 == p,
                 SeekFrom::Data(p) => match r {
-                    Ok(d) => p <= d < len && is_data_m(fsm, ino, d as int) && (forall|x: int| p <= x < d ==> !is_data_m(fsm, ino, x)),
-                    Err(e) => e == Errno::NXIO ==> (forall|x: int| p <= x < len ==> !is_data_m(fsm, ino, x)),
+                    Ok(d) => p <= d < len && fsm[ino].data.contains(d as int) && (forall|x: int| p <= x < d ==> !fsm[ino].data.contains(x)),
+                    Err(e) => e == Errno::NXIO ==> (forall|x: int| p <= x < len ==> !fsm[ino].data.contains(x)),
                 },
                 SeekFrom::Hole(p) => match r {
-                    Ok(h) => p <= h <= len && p < len && (forall|x: int| p <= x < h ==> is_data_m(fsm, ino, x)) && (h < len ==> !is_data_m(fsm, ino, h as int)),
+                    Ok(h) => p <= h <= len && p < len && (forall|x: int| p <= x < h ==> fsm[ino].data.contains(x)) && (h < len ==> !fsm[ino].data.contains(h as int)),
                     Err(e) => e == Errno::NXIO ==> p >= len,
                 },
             }
